@@ -377,7 +377,7 @@ def check(run, replay=None):
     # ---- 1. MC: I (append/unit/Apply as coded) against P (stack of open contexts, bracketed walk, cut at k)
     mcs = [dict(steps=5, visit="TRUE"), dict(steps=6, visit="FALSE")]
     if thorough:
-        mcs = [dict(steps=6, visit="TRUE"), dict(steps=8, visit="FALSE")]
+        mcs = [dict(steps=6, visit="TRUE"), dict(steps=7, visit="FALSE")]
     for c in mcs:
         r = run_tlc("DuctMC", MC_CFG % c, timeout=1500, heap="6g" if thorough else None)
         run.add_mc("DuctMC", r, c)
